@@ -85,6 +85,11 @@ func (p *c02) Init(tier string, seed int64) {
 			fmt.Sprintf("{%% include ['inc', %s] %%}", v), fmt.Sprintf("{{ {(%s): 1}|keys|join }}{{ [%s, %s]|join(%s) }}{{ %s ? %s : %s }}{{ %s == %s }}{{ %s in [%s] }}{{ %s starts with %s }}{{ %s matches '/' ~ %s ~ '/' }}", v, v, v, v, v, v, v, v, v, v, v, v, v, v, v))
 	}
 	// ... and to every method of a struct, as the only argument and as one of two (null included: "nul")
+	for _, v := range []string{"enil", "enilp", "eptr", "onil", "onilp", "np", "obj", "pt", "ov", "op"} {
+		for _, m := range []string{"String", "Number", "Boolean", "Hello", "PtrHello", "Name", "Tag", "N"} {
+			p.hand = append(p.hand, fmt.Sprintf("{{ %s.%s }}{{ %s.%s() }}{{ %s.%s(1) }}{{ %s }}{{ %s ~ 'x' }}{{ %s + 1 }}{%% if %s %%}t{%% endif %%}{{ %s == %s }}{{ %s in [%s] }}", v, m, v, m, v, m, v, v, v, v, v, v, v, v))
+		}
+	}
 	for _, m := range []string{"ValueMethod", "PtrMethod", "Add", "Concat", "Variadic", "Join", "Fmt", "Two", "Nothing", "TakesPtr", "TakesIface", "TakesFloat", "TakesSlice", "TakesUint", "TakesInt8", "TakesUint8", "NilFunc", "Fn", "Name"} {
 		for _, v := range append(c02Vars(), "null", "nan", "inf", "big") {
 			p.hand = append(p.hand, fmt.Sprintf("{{ obj.%s(%s) }}{{ pt.%s(%s, %s) }}{{ obj.%s('x', 1, %s) }}", m, v, m, v, v, m, v))
@@ -110,6 +115,7 @@ func c02Context() map[string]stick.Value {
 		"cyc": cyclicMap(), "cycs": cyclicSlice(), "cycp": cyclicStruct(),
 		"str": gen.ValStringer{S: "st"}, "safe": stick.NewSafeValue("<b>", "html"), "tm": time.Date(2021, 3, 4, 5, 6, 7, 0, time.UTC), "nilm": map[string]stick.Value(nil),
 		"mnan": map[float64]string{math.NaN(): "a", 1: "b"}, "mif": map[interface{}]stick.Value{"a": 1, 2: "b", nil: 3, math.NaN(): 4, [2]int{1, 2}: 5}, "mbool": map[bool]int{true: 1, false: 0},
+		"enil": gen.EmbedsIfaces{}, "enilp": &gen.EmbedsIfaces{}, "eptr": gen.EmbedsStringerPtr{Tag: "t"}, "onilp": &gen.OuterPtr{Extra: 8},
 		"mptr": &map[string]stick.Value{"a": 1}, "mst": map[gen.Inner]int{{Name: "x", N: 1}: 1},
 	}
 }
